@@ -30,7 +30,11 @@ func TestMain(m *testing.M) {
 			"while a limited one stays the relay is asked about it (CONNECT to that peer, RESERVE by others from its address) - labels connset:*; "+
 			"one fault per request at a step of the hop/stop exchange (reset, malformed, oversized, partial+timeout, wrong type, lost reply, resource refusal at "+
 			"SetService/ReserveMemory/BeginSpan, NewStream error/timeout, stop reply non-OK/wrong type/garbage/reset/EOF/silence, source reset or either party disconnecting mid-handshake); "+
-			"payload chunks around Limit.Data in both directions. Oracle: reference model written from the statement (see DESIGN C11); a peer has disconnected once no direct "+
+			"payload chunks around Limit.Data in both directions; "+
+			"PREVIOUS TAG VALUES are generated: about a third of the peers carry 1-2 connection-manager tags of other subsystems (weights 1-50) before their first request; the TagInfo (Tags map AND total Value) of "+
+			"every peer is snapshotted before any request and compared at every audit at which the model says the peer holds neither a reservation nor a circuit - after disconnect of the last direct connection, "+
+			"expiry + collection, any number of granted refreshes and repeated circuits - and once more after the relay is Closed at the end of every history (Close ends all reservations) - labels tagvalue:*, relay-closed-*; "+
+			"Oracle: reference model written from the statement (see DESIGN C11); a peer has disconnected once no direct "+
 			"(non-limited) connection to it is left (Connectedness is not Connected): from then on it holds no reservation, whatever limited connections remain - its slot does not count "+
 			"against the caps, it carries no reservation tag, and a well-formed CONNECT to a peer without reservation from a direct, ACL-permitted source with room on both sides is answered NO_RESERVATION. "+
 			"NON-TRIVIAL = the history contains a refused request AND (an injected fault OR a disconnect / expiry of a live reservation). "+
@@ -41,6 +45,7 @@ func TestMain(m *testing.M) {
 		"record.ConsumeEnvelope is trusted to verify envelope signatures (covered by C08)",
 		"host.NewStream, the connection manager notifications and stream scopes of the fake host follow the swarm/basic host (Connectedness: Limited when only limited connections remain; stream scope released by the first Close/Reset; streams reset when their connection closes)",
 		"between a reservation's expiry and the next collection either answer is accepted",
+		"the connection manager forgets a peer (tags of other subsystems included) when its last connection closes; while a peer holds a reservation or a circuit its tag value is not judged",
 		"a relayed connection that is not limited (Stat().Limited false) keeps the peer Connected, as in the swarm",
 		"the interleaving inside one batch is whatever the Go scheduler produces; batches are judged by order-independent invariants",
 	)
@@ -211,6 +216,12 @@ func (w *world) step() {
 	if w.goneProbeN > 0 {
 		w.goneProbeN--
 		if g := w.goneProbe; g.limitedOnly() && w.draw("gone?", 100) < 75 && w.stepProbeLimitedOnly(g) {
+			return
+		}
+	}
+	if w.regrantN > 0 {
+		w.regrantN--
+		if g := w.regrant; g.usableConn() != nil && w.openCount(g, false) > 0 && w.draw("regrant?", 100) < 75 && w.stepRegrant(g) {
 			return
 		}
 	}
@@ -422,6 +433,35 @@ func (w *world) stepProbeLimitedOnly(g *peerSt) bool {
 	}
 	w.label("connset:probe-reserve-after-limited-only-disconnect")
 	w.opReserve(q, cs, "")
+	return true
+}
+
+// stepRegrant: g's reservation was collected while g still takes part in open circuits. g
+// reserves again; once it holds a reservation, a well-formed CONNECT is directed at it (the
+// circuits opened before the collection still count towards MaxCircuits).
+func (w *world) stepRegrant(g *peerSt) bool {
+	now := time.Now()
+	if !w.mayLive(g, now) {
+		w.label("re-reserve-after-collection-with-circuit-open")
+		w.opReserve(g, g.usableConn(), "")
+		return true
+	}
+	var srcs []*peerSt
+	for _, s := range w.peers {
+		if s != g && len(s.openConns()) > 0 {
+			srcs = append(srcs, s)
+		}
+	}
+	if len(srcs) == 0 {
+		return false
+	}
+	src := srcs[w.draw("regrant-src", len(srcs))]
+	cs := src.usableConn()
+	if cs == nil {
+		cs = w.drawConn(src, "regrant-c")
+	}
+	w.label("connect-to-re-reserved-peer-with-older-circuit")
+	w.opConnect(src, cs, g, "", "", stopScript{}, usage{AB: w.drawSizes("rg-ab"), End: "leave"})
 	return true
 }
 
@@ -744,6 +784,7 @@ func (w *world) run() {
 		w.audit(fmt.Sprintf("after step %d", i+1))
 	}
 	w.closingPhase()
+	w.closeRelay()
 }
 
 // ---------------------------------------------------------------------------
